@@ -164,16 +164,23 @@ Record noracle := mkNO {
   o_rate : t;              (* Z beta exp(-Gcrit/kT) incubation * number of sites *)
   o_radd : t               (* 1/2 sqrt(kT / pi gamma) *)
 }.
-Definition nucStep (repaired : bool) (Rmin minDens dtprev : t) (prev : nslice) (o : noracle) : res nslice :=
+(* [repaired]: kawin commit "fix: keep the last valid nucleation terms when the driving force calculation returns no result";
+   [zeroed]: kawin commit "fix: no nucleation rate is recorded or used for a phase without driving force or impingement"
+   (before it both early exits left the terms of the PREVIOUS calculation in the slice) *)
+Definition nucStep (repaired zeroed : bool) (Rmin minDens dtprev : t) (prev : nslice) (o : noracle) : res nslice :=
   match o_df o with
   | None => if repaired then Ok prev else Err ErrType          (* None / Vm *)
   | Some dG =>
-      if ltb O dG (zero O) then Ok (mkN dG (n_beta prev) (n_Gcrit prev) (n_Rcrit prev) (n_rate prev) (n_Rnuc prev))
+      if ltb O dG (zero O) then
+        Ok (if zeroed then mkN dG (zero O) (zero O) (zero O) (zero O) (zero O)
+            else mkN dG (n_beta prev) (n_Gcrit prev) (n_Rcrit prev) (n_rate prev) (n_Rnuc prev))
       else
         (* nucleationBarrier: Rcrit = max(proposal, Rmin) where dG > 0, else 0 *)
         let Rc := if ltb O (zero O) dG then maxT O (o_Rprop o) Rmin else zero O in
         let Gc := if ltb O (zero O) dG then o_Gcrit o else zero O in
-        if eqb O (o_beta o) (zero O) then Ok (mkN dG (n_beta prev) (n_Gcrit prev) (n_Rcrit prev) (n_rate prev) (n_Rnuc prev))
+        if eqb O (o_beta o) (zero O) then
+          Ok (if zeroed then mkN dG (zero O) Gc Rc (zero O) (zero O)
+              else mkN dG (n_beta prev) (n_Gcrit prev) (n_Rcrit prev) (n_rate prev) (n_Rnuc prev))
         else
           let Rn := if leb O minDens (mul O (o_rate o) dtprev) && leb O Rmin Rc then add O Rc (o_radd o) else zero O in
           Ok (mkN dG (o_beta o) Gc Rc (o_rate o) Rn)
